@@ -10,6 +10,7 @@ import (
 	"strings"
 	"testing"
 
+	sdkmath "cosmossdk.io/math"
 	sdk "github.com/cosmos/cosmos-sdk/types"
 	"github.com/ethereum/go-ethereum/accounts/abi"
 	"github.com/ethereum/go-ethereum/common"
@@ -58,6 +59,16 @@ func TestC05(t *testing.T) {
 				}
 			}
 		}
+	}
+	// (a'') several precompile calls in one transaction, some in frames that fail: what remains must
+	// be exactly the effect of the native messages of the surviving calls, in order
+	for g := 0; g < r.Pick(48, 1200); g++ {
+		id := fmt.Sprintf("multi/%d", g)
+		fidx++
+		if !r.Want(id, fidx) {
+			continue
+		}
+		c05Multi(r, id)
 	}
 	// (b) EVM-only failing frames (storage, balances, logs, creates, self-destructs) vs go-ethereum
 	np := r.Pick(96, 4800)
@@ -416,7 +427,6 @@ func c05Program(r *report.R, id string) {
 	n.Commit()
 }
 
-
 var c05FlushVariants = []string{"contract-clean-outside-the-frame", "contract-dirty-outside-the-frame", "frame-created-a-contract", "frame-moved-value", "frame-self-destructed", "no-failure-slots-rewritten-after-the-call"}
 
 // c05Flush: a frame changes EVM state (storage, a created contract, a value transfer, a
@@ -624,4 +634,211 @@ func c05Flush(r *report.R, id, variant, q, endKind string) {
 	}
 	r.Count("flushed_frames_without_evm_trace", 1)
 	r.Nontriv(fmt.Sprintf("flush|%s|%s|%s", variant, q, endKind))
+}
+
+// c05Multi: k precompile calls in one transaction, each in its own frame (flat: siblings under the
+// root; nested: each frame calls the next after its own precompile call); a PRNG-chosen subset of
+// the frames fails after the call. Oracle: bank balances of every account, the signer's
+// delegations and withdraw address after the transaction equal what the native messages of the
+// surviving calls produce on a cache branch of the same state; marker slots of failed frames are
+// unwritten.
+func c05Multi(r *report.R, id string) {
+	rng := r.Rand(id)
+	e := newPcEnv(uint64(r.Seed), rng)
+	n := e.n
+	r.Eval(1)
+	origin := n.Accounts[rng.Intn(4)]
+	all := pcMethods()
+	var pool []pcMethod
+	for _, m := range all {
+		switch m.name {
+		case "delegate", "undelegate", "redelegate", "withdrawDelegatorRewards", "setWithdrawAddress":
+			pool = append(pool, m)
+		}
+	}
+	k := 2 + rng.Intn(3)
+	nested := rng.Intn(2) == 0
+	type call struct {
+		m    pcMethod
+		data []byte
+		msg  sdk.Msg
+		fail bool
+		addr common.Address
+	}
+	calls := make([]call, k)
+	pattern := ""
+	anyFail, anyKeep := false, false
+	for i := range calls {
+		m := pool[rng.Intn(len(pool))]
+		if m.name == "redelegate" && i > 0 {
+			m = pool[0] // at most one redelegation (a second one from the same source may be refused as transitive)
+		}
+		data, msg := m.pack(e, origin.Eth, rng)
+		calls[i] = call{m: m, data: data, msg: msg, fail: rng.Intn(2) == 0}
+	}
+	if !nested {
+		calls[rng.Intn(k)].fail = true
+		j := rng.Intn(k)
+		calls[j].fail = false
+	}
+	if nested {
+		calls[0].fail = false // otherwise nothing survives
+		calls[1+rng.Intn(k-1)].fail = true
+	}
+	for _, c := range calls {
+		if c.fail {
+			pattern += "F"
+			anyFail = true
+		} else {
+			pattern += "K"
+			anyKeep = true
+		}
+	}
+	if !anyFail || !anyKeep {
+		return
+	}
+	// deploy from the innermost outwards (a nested frame needs its child's address)
+	for i := k - 1; i >= 0; i-- {
+		steps := []evmasm.Step{evmasm.Forward{Kind: evmasm.Call, To: calls[i].m.pc, Fail: evmasm.Bubble}}
+		if nested && i+1 < k {
+			steps = append(steps, evmasm.CallStep{Kind: evmasm.Call, To: calls[i+1].addr, Data: calls[i+1].data, Fail: evmasm.Ignore, Record: 2})
+		}
+		steps = append(steps, evmasm.SStore{Slot: 9, Val: 9})
+		if calls[i].fail {
+			steps = append(steps, evmasm.Revert{})
+		}
+		a, err := e.deploy(steps, 1000)
+		if err != nil {
+			r.Note("multi deploy: %v", err)
+			return
+		}
+		calls[i].addr = a
+		if calls[i].m.authz != "" && !e.approve(origin, a, new(big.Int).Mul(big.NewInt(stakeUnit), big.NewInt(100000)), calls[i].m.authz) {
+			r.Note("multi approve failed")
+			return
+		}
+	}
+	var rootSteps []evmasm.Step
+	if nested {
+		rootSteps = []evmasm.Step{evmasm.CallStep{Kind: evmasm.Call, To: calls[0].addr, Data: calls[0].data, Fail: evmasm.Ignore, Record: 1}}
+	} else {
+		for i, c := range calls {
+			rootSteps = append(rootSteps, evmasm.CallStep{Kind: evmasm.Call, To: c.addr, Data: c.data, Fail: evmasm.Ignore, Record: uint64(i + 1)})
+		}
+	}
+	root, err := e.deploy(rootSteps, 1000)
+	if err != nil {
+		return
+	}
+	// which calls survive
+	survive := make([]bool, k)
+	dead := false
+	for i, c := range calls {
+		if nested {
+			survive[i] = !dead
+		} else {
+			survive[i] = !c.fail
+		}
+		_ = c
+	}
+	if nested {
+		// frame i survives iff no frame 0..i fails
+		dead = false
+		for i := range calls {
+			if calls[i].fail {
+				dead = true
+			}
+			survive[i] = !dead
+		}
+	}
+	var msgs []sdk.Msg
+	for i, c := range calls {
+		if survive[i] {
+			msgs = append(msgs, c.msg)
+		}
+	}
+	want, nerr := e.nativeEffects(msgs)
+	if nerr != nil {
+		r.Count("multi_native_reference_failed(skipped)", 1)
+		return
+	}
+	// reference for delegations and withdraw address: the same messages on a cache branch
+	refDel := func() (map[string]string, string) {
+		cctx, _ := n.Ctx().CacheContext()
+		cctx = cctx.WithGasMeter(sdk.NewInfiniteGasMeter())
+		for _, m := range msgs {
+			if _, err := n.App.MsgServiceRouter().Handler(m)(cctx, m); err != nil {
+				return nil, ""
+			}
+		}
+		out := map[string]string{}
+		for _, d := range n.App.StakingKeeper.GetDelegatorDelegations(cctx, origin.Addr, 20) {
+			out[d.ValidatorAddress] = d.Shares.String()
+		}
+		return out, n.App.DistrKeeper.GetDelegatorWithdrawAddr(cctx, origin.Addr).String()
+	}
+	wantDel, wantW := refDel()
+	before, _ := e.balances()
+	res := n.Deliver(n.EthTx(origin, vn.EthArgs{Nonce: n.EthNonce(origin.Eth), To: &root, Gas: 6_000_000, GasPrice: big.NewInt(1_000_000_000), Data: []byte{1}}))
+	ers := vn.EthResult(res)
+	if res.Code != 0 || len(ers) != 1 || ers[0].VmError != "" {
+		r.Note("multi tx failed at top level: %.100s", res.Log)
+		return
+	}
+	// did every frame end as planned? marker slot 9: written iff the frame survived
+	for i, c := range calls {
+		if got := e.slot(c.addr, 9); (got == 9) != survive[i] {
+			if survive[i] {
+				r.Count("multi_surviving_call_failed(skipped)", 1)
+				return // a call planned to succeed was refused (e.g. nothing to undelegate): not a case
+			}
+			r.Violation(id, fmt.Sprintf("multi|%s|%s|marker-slot-of-failed-frame-written", shapeName(nested), pattern), fmt.Sprintf("frame %d failed but its storage write is in the store", i), nil)
+			return
+		}
+	}
+	after, _ := e.balances()
+	got := balDelta(before, after)
+	fee := sdkmath.NewIntFromUint64(ers[0].GasUsed).MulRaw(1_000_000_000)
+	adj := func(m map[string]sdkmath.Int, k string, d sdkmath.Int) {
+		v, ok := m[k]
+		if !ok {
+			v = sdkmath.ZeroInt()
+		}
+		v = v.Add(d)
+		if v.IsZero() {
+			delete(m, k)
+		} else {
+			m[k] = v
+		}
+	}
+	adj(got, origin.Eth.Hex(), fee)
+	adj(got, common.BytesToAddress(e.feeColl).Hex(), fee.Neg())
+	names := e.names(map[string]string{origin.Eth.Hex(): "signer"})
+	desc := ""
+	for i, c := range calls {
+		desc += fmt.Sprintf("%d:%s(%s) ", i, c.m.name, map[bool]string{true: "kept", false: "undone"}[survive[i]])
+	}
+	if deltaStr(got, names) != deltaStr(want, names) {
+		r.Violation(id, fmt.Sprintf("multi|%s|%s|balances≠native-messages-of-surviving-calls", shapeName(nested), pattern),
+			fmt.Sprintf("calls %s: balance changes %s; the native messages of the surviving calls give %s", desc, deltaStr(got, names), deltaStr(want, names)), nil)
+		return
+	}
+	gotDel := map[string]string{}
+	for _, d := range n.App.StakingKeeper.GetDelegatorDelegations(n.Ctx(), origin.Addr, 20) {
+		gotDel[d.ValidatorAddress] = d.Shares.String()
+	}
+	if fmt.Sprint(gotDel) != fmt.Sprint(wantDel) || n.App.DistrKeeper.GetDelegatorWithdrawAddr(n.Ctx(), origin.Addr).String() != wantW {
+		r.Violation(id, fmt.Sprintf("multi|%s|%s|delegations-or-withdraw-address≠native-messages-of-surviving-calls", shapeName(nested), pattern),
+			fmt.Sprintf("calls %s: delegations %v withdraw %s; reference %v %s", desc, gotDel, n.App.DistrKeeper.GetDelegatorWithdrawAddr(n.Ctx(), origin.Addr), wantDel, wantW), nil)
+		return
+	}
+	r.Count("multi_call_transactions_equal_to_native", 1)
+	r.Nontriv(fmt.Sprintf("multi|%s|%s", shapeName(nested), pattern))
+}
+
+func shapeName(nested bool) string {
+	if nested {
+		return "nested"
+	}
+	return "siblings"
 }
